@@ -32,7 +32,7 @@ ASSUMPTIONS = ["project is checked for the rank id only when the caller passes r
 
 OPS = ["construct", "splitUniform", "splitEqual", "splitNonUniform", "splitUnEqual", "truediv", "floordiv", "swizzle",
        "swap", "flatten", "merge", "flatten_unflatten", "flatten_twice", "updateCoords", "updatePayloads", "deepcopy",
-       "yaml"]
+       "yaml", "fill_in_steps", "from_ragged"]
 
 
 @st.composite
@@ -231,6 +231,34 @@ def check(case, rec):
             where = f"unflatten of {where}"
             nf2 = fmts[:dd] + ["C"] * (levels + 1) + fmts[dd + levels + 1:]
             expect(r, where, ids=ids, shape=ashape if auth else "skip", default=default, fmts=nf2, mutable=mut)
+    elif op == "fill_in_steps":
+        # a tensor without declared shape filled in place, looked at while partly filled and again later
+        pts = sorted(model.content(spec).items())
+        t2 = Tensor(rank_ids=list(ids), default=default)
+        half = len(pts) // 2
+        for stage, chunk in (("half-filled", pts[:half]), ("filled", pts[half:])):
+            for p_, v_ in chunk:
+                t2.getPayloadRef(*p_).__ilshift__(v_)
+            t2.getShape()
+            for rk in t2.ranks:
+                rk.getShape(all_ranks=False)
+            coords_in_shape(t2, f"tensor without declared shape, {stage}")
+        r = t2
+        where = "fill_in_steps"
+    elif op == "from_ragged":
+        # a nest whose sub-lists differ in length between (not within) the elements of an upper rank:
+        # accepted by fromUncompressed, the shape is the maximum per level
+        if d < 3:
+            return
+        def nest(level, widen):
+            n = shape[level] + (widen if level == d - 1 else 0)
+            if level == d - 1:
+                return [1 + (i + widen) % 3 if (i + sel[1]) % 2 else default for i in range(n)]
+            return [nest(level + 1, widen) for _ in range(n)]
+        top = [nest(1, (i * (1 + sel[2] % 2)) % 3) for i in range(shape[0])]
+        r = Tensor.fromUncompressed(list(ids), top, default=default)
+        where = "fromUncompressed(ragged nest)"
+        expect(r, where, ids=ids, default=default)
     elif op == "flatten_twice":
         # flatten, then flatten the result again at the rank that is already a list of ids
         if d < 3:
